@@ -8,7 +8,8 @@ LEVEL = "model_checking"
 RULE = ("all rooted DAG shapes n<=3 (4 thorough) x listing orders x kinds x every non-empty subset of failing tasks with failure "
         "kind in {exit code, killed by signal, launch OSError, combine conflict} x jobs 1..3 x {default, --stop-early}, explored "
         "under the virtual kernel over all completion orders (+1 deviation for small graphs); oracle = reference outcome function "
-        "(skipped iff a needed direct dependency did not succeed); distinct = distinct (case, terminal event order)")
+        "(skipped iff a needed direct dependency did not succeed); distinct = distinct (case, terminal event order)"
+        ' --stop-early is additionally explored with 3-4 parallel leaves at deviation 1 (exits delivered in a batch: a task reaped but not yet processed when the failure is observed).')
 ASSUMPTIONS = [
     "under --stop-early only the statement's three clauses are checked (nothing starts after the first observed failure, running "
     "tasks get SIGTERM, exit != 0 naming the failed task); the skipped list is not compared there",
@@ -64,6 +65,15 @@ def items(tier):
                                 bound = 1 if (n <= 2 or (tier == "thorough" and n == 3 and r == 1)) else 0
                                 out.append({"case": {"g": g, "kinds": kinds, "pars": pars, "jobs": jobs, "fails": fails,
                                                      "stop_early": stop}, "bound": bound})
+    # default mode: one of several parallel leaves cannot be launched / fails, the others must all still run
+    for g in ([[1, 2, 3, 4], [], [], [], []], [[1, 2, 3, 4, 5], [], [], [], [], []]):
+        n = len(g)
+        for failing in range(1, n):
+            for fk in (["launch"], ["exit", 3]):
+                for jobs in (2, 3):
+                    for kinds in (["cmd"] * n, ["group"] + ["exp"] * (n - 1)):
+                        out.append({"case": {"g": g, "kinds": kinds, "pars": [k != "group" for k in kinds], "jobs": jobs,
+                                             "fails": {str(failing): fk}}, "bound": 0})
     # --stop-early with several tasks in flight and exits arriving in a batch (one is reaped but not yet processed)
     for g in ([[1, 2, 3], [], [], []], [[1, 2, 3, 4], [], [], [], []]):
         n = len(g)
